@@ -304,6 +304,27 @@ def index_checks(router, model):
     return None
 
 
+def expected_hooks(model, rule_key, params):
+    """independent reference for the hook clause: a hook fires for a matched route iff the route's rule extends the
+    hook's rule, outermost first, with the matched path prefix (reported as its length in the slash-stripped path)"""
+    spec = RULES[rule_key]
+    rpos = pattern_of(spec)
+    # offset in the path after consuming k pattern positions
+    offs = [0]
+    for seg in spec:
+        if isinstance(seg, L):
+            for _ in seg.text:
+                offs.append(offs[-1] + 1)
+        else:
+            offs.append(offs[-1] + len(params[seg.name]))
+    out = []
+    for h in sorted(model.hooks, key=lambda h: len(pattern_of(HOOKS_U[h]))):
+        hpos = pattern_of(HOOKS_U[h])
+        if rpos.startswith(hpos):
+            out.append((offs[len(hpos)], model.hooks[h]))
+    return out
+
+
 def make_query(history, N):
     built = replay(history)
     assert built is not None
@@ -320,8 +341,13 @@ def make_query(history, N):
         if a != b:
             return "after history %r: path %r -> edited router %r, freshly built router %r" % (history, path, a, b)
         cover(a[0])
-        if a[0] == "ok" and a[3]:
-            cover("hook")
+        if a[0] == "ok":
+            want = expected_hooks(model, a[1].split("@")[0].rsplit("/", 1)[0], a[2])
+            if a[3] != want:
+                return "after history %r: path %r matched %r, hooks fired %r, rules that the matched rule extends give %r" % (
+                    history, path, a[1], a[3], want)
+            if a[3]:
+                cover("hook")
         return None
     return q, notes
 
